@@ -212,9 +212,20 @@ impl MinCostFlowSolver {
 
         // arcs between activities must be able to carry every vehicle the head activity needs: a
         // maintenance slot may host more vehicles than a formation may couple
-        let arc_upper_bound = maximal_formation_count_for_vehicle_type.max(
-            maintenance_slots.values().copied().max().unwrap_or(0) as UpperBound,
-        );
+        let arc_upper_bound = maximal_formation_count_for_vehicle_type
+            .max(maintenance_slots.values().copied().max().unwrap_or(0) as UpperBound)
+            // ... and a route segment may allow longer formations than the (absent) limit of its type
+            .max(
+                self.network
+                    .service_nodes(vehicle_type)
+                    .map(|service_trip| {
+                        self.network
+                            .maximal_formation_count_for(service_trip)
+                            .unwrap_or(100) as UpperBound
+                    })
+                    .max()
+                    .unwrap_or(0),
+            );
 
         let trip_node_count =
             self.network.service_nodes(vehicle_type).count() + self.network.depots_iter().count();
